@@ -24,7 +24,7 @@ def parseProgramData (buf : Bytes) (pos : Nat) : Nat × Token × Int :=
       if suffixLen > 0 then
         let len := r3.2.1.len + wsLen + suffixLen
         (ps, { r3.2.1 with len := len, type := .decimalWithSuffix }, len)
-      else (ps, r3.2.1, r3.2.2)
+      else (ps, r3.2.1, r3.2.2 + wsLen)      -- realLen += wsLen: the blanks were consumed while looking for a suffix
     else
     let r4 := lexString buf r3.1
     if r4.2.2 != 0 then r4 else
@@ -54,8 +54,8 @@ def allDataLoop (buf : Bytes) : Nat → Nat → Int → Int → Int → AllData
       if rc != 0 then allDataLoop buf fuel p2 tlen rc cnt
       else ⟨p2, mkTok .allProgramData 0 tlen, cnt⟩
     else
-      -- no data at all is valid, a separator without following data is not
-      ⟨p1, mkTok .unknown 0 0, if cnt == 0 then 0 else -1⟩
+      -- no data at all is valid, a separator without following data or unfinished data is not
+      ⟨p1, mkTok .unknown 0 0, if cnt == 0 ∧ (p1 : Int) = pos + r then 0 else -1⟩
 
 /-- scpiParser_parseAllProgramData -/
 def parseAllProgramData (buf : Bytes) (pos : Nat) : AllData :=
